@@ -5,6 +5,7 @@ import OnlVerif.Lemmas.Port
 import OnlVerif.Net.GenSink
 import OnlVerif.Lemmas.NetworkNodes
 import OnlVerif.Lemmas.NetworkOrder
+import OnlVerif.Lemmas.NetworkDrain
 /-!
 # C08 — packets are never lost, duplicated or invented between source and sink
 
@@ -274,6 +275,19 @@ theorem network_drains {σ : Type} (n : Wiring ι π κ) (nd : ι → Node π σ
   · have := ho s' hs' hne
     have := mem_of_rc_pos.mp hm
     omega
+
+/-- **Network-wide drain as one multiset equation**: in a quiescent network of element transition systems, for every
+duplicate-free list `nodes` that contains every node that dropped something (all nodes of a finite network, say), the introduced
+packets are exactly — as a multiset, each once — the packets delivered to the sinks together with the packets dropped by
+the nodes: introduced = delivered ⊎ dropped. -/
+theorem network_drains_multiset {σ : Type} (n : Wiring ι π κ) (nd : ι → Node π σ) (law : ∀ a, NodeLaw (nd a))
+    (hid : ∀ a, IdPreserving (nd a)) (loc0 : ι → σ) (h0 : ∀ a, (nd a).Inv (loc0 a) ∧ (nd a).heldOf (loc0 a) = [])
+    (L : LState ι π σ) (es : List (GEv ι π)) (h : LReach n nd loc0 L es) (hq : ∀ a, (nd a).Quiescent (L.loc a))
+    (nodes : List ι) (hn : nodes.Nodup) (hall : ∀ a, (L.g.acct a).dropped ≠ [] → a ∈ nodes) :
+    L.g.introduced.Perm (L.g.delivered.map (·.2) ++ nodes.flatMap fun a => (L.g.acct a).dropped.map (·.1)) := by
+  obtain ⟨hr, _⟩ := lreach_run n nd law hid loc0 h0 L es h
+  have hi := run_inv n es {} L.g (ginv_init n) hr
+  exact drained_perm n L.g hi (network_drains n nd law hid loc0 h0 L es h hq).1 nodes hn hall
 
 /-- **Packets of one flow arrive at the end of a chain in the order they entered it**: let `sel` select packets (a flow, a
 source, …) and let `a₀ → a₁ → … → aₙ` be a chain of nodes such that, for each link `aᵢ → aᵢ₊₁`, the wiring sends every selected
